@@ -263,7 +263,7 @@ func seqProfile0(prop, tier string) *SeqProfile {
 	case "C08":
 		return &SeqProfile{Prop: prop, NRandom: 0, Module: "TraceLin.tla", Cfg: "TraceLin.cfg",
 			Design: []DesignRun{{Module: "KlevConc.tla", Cfg: tierS(tier, "conc_q.cfg", "conc_t.cfg"), Workers: 16, Timeout: 20 * time.Minute,
-				Note: "KlevConc.tla: lock-level model with reader object identity; every result checked at its linearization point, full scan = abstract log at quiescence, head flag only on the last reader"},
+				Note: "thorough-only (quick: the schedule generator run checks the same invariants on conc_q's constants). KlevConc.tla: lock-level model with reader object identity; every result checked at its linearization point, full scan = abstract log at quiescence, head flag only on the last reader"},
 				{Module: "KlevConc.tla", Cfg: "conc_f13.cfg", Workers: 4, Timeout: 10 * time.Minute, Expect: "QuiescentOK,HeadFlagOK",
 					Note: "negative control: the model of the code before the repair of F13 (stale head reader) must violate QuiescentOK or HeadFlagOK"}},
 			Extra: runC08,
